@@ -69,8 +69,10 @@ impl<'a> SnapshotBuilder<'a> {
                     &&& final(self).origins@[o].srcs() == old(self).origins@[o].srcs().insert(Src::Published(origin.info))
                 }
         }),
-        // C08: with warn or accept the unsafe-VRP filter removes nothing: the result
-        // does not depend on whether the prefix overlaps rejected resources
+        // C08 + C09 + C41: the policy table - an origin is dropped because of rejected resources
+        // ONLY under reject; with warn or accept the unsafe-VRP filter removes nothing (a rejected
+        // CA does not change the payload of other subtrees): the result does not depend on
+        // whether the prefix overlaps rejected resources
         !(old(self).unsafe_vrps is Reject) && !old(self).exceptions.drop_origin_spec(origin.origin)
             ==> final(self).origins@.contains_key(origin.origin),
         // C08 + C09: with reject an overlapping VRP is never added
@@ -86,18 +88,18 @@ impl<'a> SnapshotBuilder<'a> {
         final(self).unsafe_vrps_present == (old(self).unsafe_vrps_present || is_unsafe(&old(self).rejected, origin.origin)),
 //@ entry
         broadcast use vstd::std_specs::hash::group_hash_axioms, axiom_route_origin_key_model, axiom_info_published;
-//@ closure 1
-|m: &mut VrpMetrics| requires old(m).valid < u32::MAX
-//@ closure 2
-|m: &mut VrpMetrics| requires old(m).marked_unsafe < u32::MAX
-//@ closure 3
-|m: &mut VrpMetrics| requires old(m).marked_unsafe < u32::MAX
-//@ closure 4
-|m: &mut VrpMetrics| requires old(m).locally_filtered < u32::MAX
-//@ closure 5
-|m: &mut VrpMetrics| requires old(m).contributed < u32::MAX
-//@ closure 6
-|m: &mut VrpMetrics| requires old(m).duplicate < u32::MAX
+//@ closure update_origin:n 1 optional
+|m: &mut VrpMetrics| requires vrp_headroom(*old(m))
+//@ closure update_origin:n 2 optional
+|m: &mut VrpMetrics| requires vrp_headroom(*old(m))
+//@ closure update_origin:n 3 optional
+|m: &mut VrpMetrics| requires vrp_headroom(*old(m))
+//@ closure update_origin:n 4 optional
+|m: &mut VrpMetrics| requires vrp_headroom(*old(m))
+//@ closure update_origin:n 5 optional
+|m: &mut VrpMetrics| requires vrp_headroom(*old(m))
+//@ closure update_origin:n 6 optional
+|m: &mut VrpMetrics| requires vrp_headroom(*old(m))
 //@ fn SnapshotBuilder::process_key
 //@ spec
     ensures
@@ -774,4 +776,10 @@ proof fn lemma_fam_union_prefix(a: Seq<(bool, IpBlock)>, b: Seq<(bool, IpBlock)>
     decreases n
 {
     if n > 0 { lemma_fam_union_prefix(a, b, fam, n - 1); }
+}
+
+// every counter of a VrpMetrics can still be incremented (metric overflow is not part of any property here)
+spec fn vrp_headroom(m: VrpMetrics) -> bool {
+    m.valid < u32::MAX && m.marked_unsafe < u32::MAX && m.locally_filtered < u32::MAX
+        && m.duplicate < u32::MAX && m.contributed < u32::MAX
 }
